@@ -106,6 +106,7 @@ type machine struct {
 	memo      map[*Term]uint64
 	hiddenVars []*Term
 	inDecide   bool
+	unwind     int
 }
 
 type violationRec struct {
@@ -532,8 +533,16 @@ func (fr *frame) runBlocks() {
 			fr.visits = make(map[int]int)
 		}
 		fr.visits[fr.block.Index]++
-		if fr.visits[fr.block.Index] > m.eng.maxUnwind {
-			m.end("unwind", fmt.Sprintf("block visited > %d times in %s", m.eng.maxUnwind, fr.fn))
+		lim := m.eng.maxUnwind
+		if m.unwind > 0 {
+			lim = m.unwind
+		}
+		if fr.visits[fr.block.Index] > lim {
+			if m.unwind > 0 {
+				// a harness-declared unwinding bound: exceeding it is the "hang" signal
+				m.violate("unwind", "unwind-bound", fmt.Sprintf("loop in %s exceeds the declared unwinding bound %d", fr.fn, lim))
+			}
+			m.end("unwind", fmt.Sprintf("block visited > %d times in %s", lim, fr.fn))
 		}
 	}
 }
